@@ -89,6 +89,8 @@ Print Assumptions cssparse_lexer_tok_in_lex.
        EBeginAtRule: ws? at-keyword (ws? prelude-token)* ws? '{'                    EEndAtRule:  ws? '}'
        EUTok:    a token inside the block of an unknown at-rule
        EComment: ws? comment          EToken: ws? CDO | ws? CDC
+   where ws? is a gap (ws_t): any sequence of Whitespace and Comment tokens inside a block, Whitespace only at the top
+   level (there a comment is a unit of its own),
    that nest properly (evs_ok over the stack of open blocks - ruleset, rule block of @media / @supports / @layer /
    @keyframes / @document, declaration block of @font-face / @page, token block of any other at-rule; the kind is
    decided by the hash parseAtRule computes from the lower-cased name without vendor prefix, at_st; ToHash is total):
@@ -108,15 +110,19 @@ Print Assumptions cssparse_lexer_tok_in_lex.
    ':', '[' or a delimiter other than '*' - nest_first)
    yields exactly one unit per event, in order:
    - BeginRuleset with Values() = expected_sel: the selector tokens in order with a single space token exactly where
-     the source has whitespace between two tokens neither of which is a combinator  , > + ~  and that are not inside
-     an attribute selector [ ] - the same rule for top-level and nested rulesets; EndRuleset;
+     the source has a separating gap between two tokens neither of which is a combinator  , > + ~  and that are not
+     inside an attribute selector [ ]; a separating gap is one with whitespace for a top-level selector (a comment
+     alone gives no space: a/**/b gives a b) and any non-empty gap for the selector of a nested ruleset, which
+     parseDeclaration collects (x/**/y gives x " " y); EndRuleset;
    - Declaration with the lower-cased property name and Values() = expected_vals: the value tokens in order with a
-     single space token exactly where the source has whitespace between two value tokens neither of which is one of
-     the punctuation bytes  , / : ! = ;
+     single space token exactly where the source has a non-empty gap - whitespace or a dropped comment - between two
+     value tokens neither of which is one of the punctuation bytes  , / : ! = ; the value may be empty (b:; is a
+     Declaration without values);
    - CustomProperty with the name as data and Values() = one CustomPropertyValue token whose bytes are the
      concatenation of the raw tokens, i.e. the exact source text after ':' up to the ';' or '}';
    - AtRule / BeginAtRule with the lower-cased at-keyword as data and Values() = at_buf: the prelude tokens in order
-     with a single space token exactly where the source has whitespace before a token that is not ',' ':' or ')',
+     with a single space token exactly where the source has whitespace (a comment alone gives none) before a token
+     that is not ',' ':' or ')',
      does not follow ',' ':' or '(' and is not a '(' or '[' directly after the at-keyword; EndAtRule;
    - Token with the token as data for every token of an unknown at-rule block and for CDO / CDC; Comment with the
      comment as data;
@@ -127,11 +133,11 @@ Print Assumptions cssparse_lexer_tok_in_lex.
    - declarations directly inside an at-rule that is nested in a ruleset (a{@media x{b:c}}): the block of @media ...
      is always a rule list, the declaration is a parse error (finding wellformed-nested-at-decl, pinned by the
      suite); rulesets inside such a block are in the grammar.
-   Outside the property's grammar and not in the statement: comments inside blocks (the parser drops them; between
-   two value tokens a dropped comment acts like whitespace), stray ';' between declarations, a declaration with an
-   empty value. *)
+   - the space that a dropped comment produces between two value tokens or two tokens of a nested selector is a token
+     that is not in the input (finding wellformed-comment-space); the statement says exactly where it appears.
+   Not in the statement: stray ';' between declarations (the parser skips them without a unit). *)
 Theorem cssparse_wellformed : forall d evs w,
-  css_lex d = LexDone (concat (map ev_toks evs) ++ optws w) -> evs_ok [] evs ->
+  css_lex d = LexDone (concat (map ev_toks evs) ++ optws w) -> evs_ok [] evs -> iscm w = false ->
   exists tr, parse_run (length evs + 1) (new_parser d false) = POk tr /\
     map view tr = map ev_unit evs ++ [(GError, TError, [], [])] /\ no_err tr.
 Proof. exact cssparse_wellformed_proof. Qed.
